@@ -297,6 +297,16 @@ fn are_more_expressions(args: &[&str], index: usize) -> bool {
     (index < args.len() - 1) && args[index + 1] != ")"
 }
 
+/// A user or group id as -user and -group take it: decimal digits only (the
+/// integer parser would also take a sign).
+fn parse_numeric_id(id: &str) -> Option<u32> {
+    if id.bytes().all(|b| b.is_ascii_digit()) {
+        id.parse().ok()
+    } else {
+        None
+    }
+}
+
 fn convert_arg_to_number(
     option_name: &str,
     value_as_string: &str,
@@ -734,7 +744,7 @@ fn build_matcher_tree(
 
                 i += 1;
                 let matcher = UserMatcher::from_user_name(user)
-                    .or_else(|| Some(UserMatcher::from_uid(user.parse::<u32>().ok()?)))
+                    .or_else(|| Some(UserMatcher::from_uid(parse_numeric_id(user)?)))
                     .ok_or_else(|| format!("{user} is not the name of a known user"))?;
                 Some(matcher.into_box())
             }
@@ -763,7 +773,7 @@ fn build_matcher_tree(
 
                 i += 1;
                 let matcher = GroupMatcher::from_group_name(group)
-                    .or_else(|| Some(GroupMatcher::from_gid(group.parse::<u32>().ok()?)))
+                    .or_else(|| Some(GroupMatcher::from_gid(parse_numeric_id(group)?)))
                     .ok_or_else(|| format!("{group} is not the name of an existing group"))?;
                 Some(matcher.into_box())
             }
